@@ -84,7 +84,11 @@ pub fn main_clip(args: &[String]) -> i32 {
     // ---------------- Part A
     if !cases_path.is_empty() {
         let f = std::fs::File::open(&cases_path).expect("cases");
-        let embs = [Embedding::new(1.0, [0.0; 3]), Embedding::new(0.1, [-17.25, 3.5, 0.7]), Embedding::new(2f64.powi(-40), [0.0; 3])];
+        // (no tiny-scale embedding here: below about 1e-9 the filter's absolute error floor sends EVERY test to the exact
+        // predicate, which speaks about the snapped configuration also for vertices the exact machine kept as ties in EARLIER
+        // clips - the prescribed cell is then not a state the builder reaches in that embedding; full builds at 2^-40 are
+        // checked by the lattice pipeline)
+        let embs = [Embedding::new(1.0, [0.0; 3]), Embedding::new(0.1, [-17.25, 3.5, 0.7])];
         for line in std::io::BufReader::new(f).lines() {
             let line = line.unwrap();
             if line.trim().is_empty() {
